@@ -80,6 +80,19 @@ def io(i: "Instantiable") -> Dict[str, "Connectable"]:
     return rv
 
 
+def bundled_io(i: "Instantiable") -> Dict[str, "Connectable"]:
+    """
+    Get the IO ports of `i` as a *new parent* sees them: Signals and Bundles, as `i` defines them.
+    Elaboration flattens a Module's bundle-valued ports in place, and keeps the originals in `_pre_flattening_io`;
+    an already elaborated Module is instantiated, wrapped and stacked by its original ports nonetheless.
+    """
+
+    pre = getattr(i, "_pre_flattening_io", None)
+    if pre is not None:
+        return copy.copy(pre)
+    return io(i)
+
+
 _doc = """
 # Instantiable
 
